@@ -32,8 +32,14 @@ def run(tier, seed):
                                  "--cpus", "2", "--keys", str(rng.choice([3, 4])), "--ttl", "1",
                                  "--end", "leak", "--flushpct", "10", "--maximages", "700",
                                  "--nested", "10" if tier == "quick" else "25"]))
+    # MC: recovery as interruptible steps (journal replay, scan, retirement in chunks of JMax), crashes at
+    # any point, nested; the variant with the pre-fix retirement order must fail (model sanity)
+    mcr = ce.mc_model(rd, "MCRecovery", "MCRecovery_quick.cfg" if tier == "quick" else "MCRecovery_full.cfg")
+    ce.mc_model(rd, "MCRecovery", "MCRecovery_code.cfg", expect_violation=True, timeout=600)
     res = ce.run_workloads(fxv, rd, jobs)
     viol = []
+    if mcr.violation:
+        viol.append({"what": "model: " + mcr.violation, "replay": v.save_replay("c04", "mc.out", mcr.out[-5000:]), "key": "mc"})
     nested = []
     for x in res:
         if x["rc"] != 0:
@@ -96,7 +102,7 @@ def run(tier, seed):
                 k = "journal" if '"kind":"j"' in line else ("markers" if '"t":"M"' in line else "other")
                 kinds[k] = kinds.get(k, 0) + 1
     cov = {
-        "states": st["states"], "transitions": st["transitions"],
+        "states": st["states"] + mcr.distinct, "transitions": st["transitions"] + mcr.generated, "mc_states": mcr.distinct,
         "traces_validated_against_impl": len(nested),
         "evaluations": st["images"], "distinct_nontrivial": len(nested),
         "rule": "one trace = one real recovery of a crash image of a real workload whose recovery wrote to "
